@@ -61,7 +61,8 @@ class Scheduler(interpose.Listener):
         self.max_steps = max_steps
         self.busy_budget = busy_budget
         self.busy_count = {}
-        self.fault = None               # callable(kind, desc, client) -> exception or None
+        self.fault = None               # callable(kind, desc, client) -> exception or None (at yield points)
+        self.inject = None              # callable(kind, desc, client) -> exception or None (every statement / file op)
         self.choices = []               # the schedule actually taken (client ids)
         self.page_size = 4096
 
@@ -108,6 +109,10 @@ class Scheduler(interpose.Listener):
             return
         self.conn_client[id(conn)] = c.cid
         head = sql.lstrip()[:6].upper()
+        if self.inject is not None and head not in ('COMMIT', 'ROLLBA'):
+            exc = self.inject('sql', head, c)
+            if exc is not None:
+                raise exc
         if self.holds_lock(conn) and head not in ('COMMIT', 'ROLLBA'):
             return                      # inside a held write transaction: not observable
         if head == 'COMMIT' and self.holds_lock(conn):
@@ -171,6 +176,10 @@ class Scheduler(interpose.Listener):
         c = self.me()
         if c is None:
             return
+        if self.inject is not None:
+            exc = self.inject('file', kind, c)
+            if exc is not None:
+                raise exc
         self.yield_point('file', kind)
 
     def file_after(self, kind, path, info, error):
